@@ -18,9 +18,14 @@ CLAIMS = {
              "agent's view) and value-faithfulness of clone attribute by attribute; a witness theorem shows the unrepaired "
              "optimizer handling violates it. The model's rule table is that of clone()/copy_attributes; on every run a walker "
              "measures real cross-agent aliasing and value fingerprints for all eleven algorithms along random histories and "
-             "diffs them with the model; the statement itself (same greedy action, nobody else changes) is evaluated as oracle.",
+             "diffs them with the model; the statement itself (same greedy action, same k-step update, nobody else changes) is "
+             "evaluated as oracle. In addition harness/py2lean_clone.py translates the provenance of every value that clone(), "
+             "copy_attributes, inspect_attributes and AgentWrapper.clone hand to the new agent into lean/Gen/CloneGen.lean on every "
+             "run; Proofs/CloneGenEq.lean proves the model's rule table equal to the one derived from the generated phases and "
+             "eight C01_source_translation_* theorems restate ownership, frame and faithfulness for the generated table.",
         note=COMMON_NOTE + " Numerics of learn steps are opaque (value ids); that the walker reaches every mutable object is an assumption.",
-        technique="Lean 4 proof (ownership invariant + frame lemma by induction over op histories) + alias/value correspondence on real agents",
+        technique="Lean 4 proof (ownership invariant + frame lemma by induction over op histories) + alias/value correspondence on real agents "
+                  "+ source-to-Lean translation of clone / copy_attributes (rule table derived from the source on every run)",
         ref="DESIGN.md §3 C01"),
     "C09": dict(
         text="Lean theorems (lean/Props/C09.lean) prove for every capacity and every sequence of batched additions that the "
